@@ -260,6 +260,43 @@ theorem HmmerRes.regenerate_inv {ctx maxE minS j y} (h : HmmerRes.regenerate ctx
     | discard => rw [hx] at h; simp at h
     | refuse e => rw [hx] at h; simp at h
 
+theorem Dec.le_total (a b : Dec) : Dec.le a b = true ∨ Dec.le b a = true := by
+  have hs := Dec.scaled_swap a b
+  simp only [Dec.le, decide_eq_true_eq]
+  rw [hs]
+  simp only
+  omega
+
+theorem Dec.strict_off_boundary {a b : Dec} (h : (Dec.le b a && Dec.le a b) = false) : Dec.le a b = Dec.lt a b := by
+  rw [Dec.lt_eq_not_le a b]
+  rcases Dec.le_total a b with h1 | h1
+  · cases h2 : Dec.le b a
+    · simp [h1]
+    · simp [h1, h2] at h
+  · cases h2 : Dec.le a b
+    · simp [h1]
+    · simp [h1, h2] at h
+
+theorem filter_congr' {α} (p q : α → Bool) : ∀ l : List α, (∀ x ∈ l, p x = q x) → l.filter p = l.filter q
+  | [], _ => rfl
+  | x :: xs, h => by
+    have hx := h x (by simp)
+    have ih := filter_congr' p q xs (fun y hy => h y (by simp [hy]))
+    simp [List.filter, hx, ih]
+
+/-- off the boundary the inclusive filter of `refilter` and the exclusive one of `build_hits` agree -/
+theorem hmmerReference_eq_fresh (hits : List HmmerHit) (maxE minS : Dec)
+    (h : Spec.hmmerOnBoundary hits maxE minS = false) :
+    Spec.hmmerReference hits maxE minS = Spec.hmmerFresh hits maxE minS := by
+  unfold Spec.hmmerReference Spec.hmmerFresh
+  apply filter_congr'
+  intro x hx
+  simp only [Spec.hmmerOnBoundary, List.any_eq_false] at h
+  have hb := h x hx
+  simp only [Bool.or_eq_true, not_or, Bool.not_eq_true] at hb
+  rw [Dec.strict_off_boundary hb.1, Dec.strict_off_boundary (a := x.evalue) (b := maxE) (by
+    have := hb.2; rw [Bool.and_comm]; exact this)]
+
 /-! ### TTA -/
 
 theorem TTA.fromJson_toJson_cases (x : TTA) (opt : Dec) (hl : TTA.locsOk x.codons = true) :
